@@ -66,6 +66,8 @@ def run(ctx):
                    site, witness="http://a.com/a/%2E%2E/b")
     # nothing re-introduces escapes or dots after normpath except quote (which cannot create dots)
     normpath_order(ctx, "R5")
+    if ctx.tier == "thorough":
+        normpath_table(ctx, "R5")
     # R6 host chain -------------------------------------------------------------------
     ctx.rule("R6", "host spelling: the host passes through punycode decoding and lower-casing; both default ports are dropped (table shared with C01)")
     bad = F.unguarded_paths(host, U.is_attr("hostname"), F.is_call(U.U + "decode_punycode_hostname"))
@@ -132,3 +134,49 @@ def normpath_order(ctx, rule):
         ctx.ob(rule, "normpath/squeeze-before-segment-resolution", ok and bool(assigned),
                "normpath resolves '..' segments on the un-squeezed path (the squeeze is applied at line %d, the split at line %d): the empty segment of 'a//../b' absorbs the '..'" % (sq.lineno, sp.lineno),
                ut.site(sp), witness="http://example.com/a//../b")
+
+
+def normpath_table(ctx, rule):
+    """thorough tier: normpath interpreted on every path of <= 5 segments over {a, b, '.', '..', ''} against an
+    independent RFC 3986 5.2.4 reference (slashes squeezed first, trailing slash dropped as normpath documents)."""
+    import itertools
+    from ..microeval import run_function
+    ut = ctx.repo.mod("utils")
+    ref = ut.func("normpath")
+
+    def reference(path):
+        import re as _re
+        path = _re.sub(r"/{2,}", "/", path)
+        out = []
+        segs = path.split("/")
+        lead = segs[0] == "" and len(segs) > 1
+        for i, s in enumerate(segs):
+            if i == 0 and lead:
+                continue
+            if s == ".":
+                continue
+            if s == "..":
+                if out:
+                    out.pop()
+                continue
+            out.append(s)
+        res = ("/" if lead else "") + "/".join(out)
+        return res.rstrip("/")
+    n = 0
+    bad = None
+    for L in range(1, 6):
+        for tup in itertools.product(("a", "b", ".", "..", ""), repeat=L):
+            p = "/" + "/".join(tup)
+            n += 1
+            try:
+                got = run_function(ctx.repo, ref, [p])
+            except Unknown as e:
+                ctx.undecided(rule, "normpath(%r): %s" % (p, e))
+                return
+            if got != reference(p):
+                bad = (p, got, reference(p))
+                break
+        if bad:
+            break
+    ctx.ob(rule, "normpath/table", bad is None, "normpath(%r) gives %r, the RFC 3986 dot-segment reference gives %r" % (bad or ("", "", "")), ut.site(ref.node), witness=bad and "http://a.com" + bad[0],
+           sample="%d absolute paths of <= 5 segments over {a, b, ., .., empty}" % n)
